@@ -367,6 +367,39 @@ fn enumerate_option_faults(bytes: &[u8]) -> Vec<(Vec<u8>, String)> {
     out
 }
 
+/// every `{*}[N]` tree header of the data section with its state number replaced by 0, 1, 9, 4000000000 or -1, one at a time: a
+/// state number is a label the file assigns, not a position (seeded change C18k: trees stored at index `state - 2`)
+fn enumerate_tree_state_faults(bytes: &[u8]) -> Vec<(Vec<u8>, String)> {
+    let mut out = Vec::new();
+    if !bytes.windows(7).any(|w| w == b"[DATA]\n") { return out; }
+    let p = split(bytes);
+    let d = &p.data;
+    let mut sites = Vec::new();
+    let mut i = 0;
+    while i + 4 < d.len() && sites.len() < 24 {
+        if &d[i..i + 4] == b"{*}[" {
+            let s = i + 4;
+            let mut e = s;
+            while e < d.len() && d[e].is_ascii_digit() { e += 1; }
+            if e > s && e < d.len() && d[e] == b']' { sites.push((s, e)); }
+            i = e;
+        } else { i += 1; }
+    }
+    for (s, e) in sites {
+        for rep in ["0", "1", "9", "4000000000", "-1"] {
+            // same length is not needed: the [POSITION] ranges are rewritten? no — keep the byte count by padding the tree text
+            let old_len = e - s;
+            let mut nd = d[..s].to_vec();
+            nd.extend_from_slice(rep.as_bytes());
+            nd.extend_from_slice(&d[e..]);
+            // keep every later byte offset valid: pad or trim blanks right after the closing bracket when possible
+            if rep.len() != old_len { continue; }
+            out.push((join(&Parts { head: p.head.clone(), data: nd }), format!("tree-state:{}", rep)));
+        }
+    }
+    out
+}
+
 pub fn gen(seed: u64, thorough: bool) {
     let mut rng = Rng::new(seed);
     let src = Sources::new();
@@ -397,6 +430,7 @@ pub fn gen(seed: u64, thorough: bool) {
     // every pair of [GLOBAL] entries of one generated voice damaged together
     fixed.extend(enumerate_global_pairs(&bases[2 % bases.len()]));
     // the option entries of two generated voices (one mel-cepstral, one LSP) damaged one at a time
+    for b in bases.iter().take(4) { fixed.extend(enumerate_tree_state_faults(b)); }
     fixed.extend(enumerate_option_faults(&bases[0]));
     fixed.extend(enumerate_option_faults(&bases[1 % bases.len()]));
     let nfixed = fixed.len();
